@@ -1,4 +1,4 @@
-CONSTANTS LensChoices <- EmptyChoice  MaxLenChoices = {4}  ChunkMax = 16777216  Junk = 6
+CONSTANTS LensChoices <- EmptyChoice  MaxLenChoices = {4}  ChunkMax = 16777216  JunkChoices = {0}  MaxConns = 1000000
 SPECIFICATION TraceSpec
 INVARIANTS TypeOK Aligned OnlyLegalOut ClosedOnlyOnError NoPrematureWait
 CONSTRAINT HighWater
